@@ -154,6 +154,19 @@ fn enumerate(tier: Tier, idx: u32, of: u32, cx: &mut Cx) -> CaseResult {
         crate::engine::force_remove(&sub);
         cx.add_evals(1);
         cx.inner_nontrivial += 1;
+        // ... of 1200 files in directories whose names extend one another, in ONE index hunk
+        crate::engine::heartbeat();
+        let tree = tree::prefixy_wide_tree(1200, crate::probes::plain_meta());
+        let sub = cx.dir("prefixy-wide");
+        std::fs::create_dir_all(&sub).unwrap();
+        let mut cx2 = crate::engine::sub_cx(cx, sub.clone());
+        run(&Case::Walk { opts: crate::ops::Opts { cap: 0, ..crate::ops::Opts::defaults() }, tree }, &mut cx2).map_err(|mut f| {
+            f.signature = format!("{}/probe-prefixy-wide", f.signature);
+            f
+        })?;
+        crate::engine::force_remove(&sub);
+        cx.add_evals(1);
+        cx.inner_nontrivial += 1;
         // ... and of one very large file between small ones
         crate::engine::heartbeat();
         let (opts, tree) = crate::probes::huge_file_tree();
@@ -243,7 +256,8 @@ fn enumerate(tier: Tier, idx: u32, of: u32, cx: &mut Cx) -> CaseResult {
 }
 
 fn path_strategy() -> BoxedStrategy<String> {
-    prop::collection::vec(tree::name_strategy(), 1..7)
+    // (names of up to 250 bytes now and then: paths far beyond 255 and beyond 4096 bytes in all)
+    prop::collection::vec(tree::name_strategy_with_long(), 1..7)
         .prop_map(|v| format!("/{}", v.join("/")))
         .boxed()
 }
@@ -256,6 +270,7 @@ fn junk_string() -> BoxedStrategy<String> {
         1 => Just("..".to_string()),
         1 => Just("a\0".to_string()),
         1 => "[ -~]{0,4}",
+        1 => (prop::sample::select(vec!["x", "é", "a."]), 30usize..130).prop_map(|(u, n)| u.repeat(n)),
     ];
     (any::<bool>(), prop::collection::vec(comp, 0..6), any::<bool>())
         .prop_map(|(lead, v, trail)| {
@@ -268,7 +283,7 @@ fn strategy(_tier: Tier) -> BoxedStrategy<Case> {
     prop_oneof![
         2 => prop::collection::vec(path_strategy(), 2..12).prop_map(Case::Paths),
         1 => prop::collection::vec(junk_string(), 1..8).prop_map(Case::Strings),
-        5 => tree::opts_tree_strategy(TreeCfg::plain()).prop_map(|(opts, tree)| Case::Walk { opts, tree }),
+        5 => tree::opts_tree_strategy(TreeCfg { long_names: true, ..TreeCfg::plain() }).prop_map(|(opts, tree)| Case::Walk { opts, tree }),
         1 => (tree::opts_tree_strategy(TreeCfg { max_children: 8, links: false, ..TreeCfg::plain() }), any::<u16>(), any::<u16>())
             .prop_map(|((opts, tree), when, trunc)| Case::WalkChanging { opts: Opts { cap: opts.cap.max(4096), ..opts }, tree, when, trunc }),
     ]
@@ -421,7 +436,7 @@ pub fn prop() -> Prop<Case> {
     Prop {
         id: "C11",
         level: "exploration",
-        rule: "enumeration: every ordered pair of the 4681 paths of depth<=4 over {a, a., a-, 'a b', b, é, .x, ~} (cmp vs documented order, antisymmetry, equality), every triple of the 259 paths of depth<=3 over 6 of them (transitivity), contiguity/children-first on the depth<=3 universe, is_valid on every string of <=4 (thorough 5) components over {'', ., .., a\\0b, a, é, a., ..a, \\0} x leading/trailing slash; generated: random longer paths/strings and trees (source walk, listing and independently decoded index each strictly increasing under the reference order and equal to the model's path set). Non-trivial pair = distinct paths sharing the first component whose depths differ or one textually prefixes the other; non-trivial tree = >=2 directory levels with sibling names that extend one another; enumerated items are distinct by construction, generated ones by case hash. A tenth of the tree cases truncate a later file of the same directory while the backup runs (index and listing must stay strictly increasing); two fixed scale probes per run (10 012 files, one entry per hunk; one 272 MiB file between small ones)",
+        rule: "enumeration: every ordered pair of the 4681 paths of depth<=4 over {a, a., a-, 'a b', b, é, .x, ~} (cmp vs documented order, antisymmetry, equality), every triple of the 259 paths of depth<=3 over 6 of them (transitivity), contiguity/children-first on the depth<=3 universe, is_valid on every string of <=4 (thorough 5) components over {'', ., .., a\\0b, a, é, a., ..a, \\0} x leading/trailing slash; generated: random longer paths/strings and trees (source walk, listing and independently decoded index each strictly increasing under the reference order and equal to the model's path set). Non-trivial pair = distinct paths sharing the first component whose depths differ or one textually prefixes the other; non-trivial tree = >=2 directory levels with sibling names that extend one another; enumerated items are distinct by construction, generated ones by case hash. A tenth of the tree cases truncate a later file of the same directory while the backup runs (index and listing must stay strictly increasing); three fixed scale probes per run (10 012 files, one entry per hunk; 1200 files under directories whose names extend one another, all in one hunk; one 272 MiB file between small ones); generated paths and trees now and then have names of up to 250 bytes (paths beyond 255 and beyond 4096 bytes)",
         assumptions: &[
             "reference order written from doc/format.md on byte slices, independent of src/apath.rs",
             "release-like build: conserve's debug-only order assertions are compiled out, so the oracle is the harness's own",
